@@ -47,6 +47,11 @@ CHECKS = {
                   "earlier resend) with BeginSeqNo / EndSeqNo symbolic over a window containing 0, negatives, the journaled range and "
                   "beyond, and a symbolic replay decision per message; the reply is compared with an independent reference chain, counters, "
                   "state and journal rows outside the range must be unchanged."),
+    "C20": ("2 (C20)", "FIXTester factories called with solver-chosen argument combinations (every ExecType x OrdStatus pair, quantity / price / "
+                  "ClOrdID choices, order states reached by a prefix, session message factories with symbolic numbers): accepted results must "
+                  "validate against FIX44.xml and an independent required-tag list, be quantity-consistent, carry fresh ExecIDs / stable "
+                  "OrderIDs and be processed by the order object; clean session scripts are run against the simulated acceptor and a real "
+                  "acceptor endpoint and compared."),
     "C08": ("2 (C08)", "Operation sequences on the real Journaler (FakeSQLite) with the crash slot as a solver variable over every point "
                   "before/after every SQL statement and commit, plus normal close; after the crash a fresh Journaler must show a state "
                   "at an operation boundary. Counterexamples and sampled witnesses are re-run on the real sqlite3 with os._exit in a child."),
